@@ -18,8 +18,10 @@ import (
 // and prune again, and every header is looked up in both.
 func C11LoadGrowPrune(ctx context.Context, run *common.Run) {
 	type combo struct{ tip, depth, grow int }
-	combos := []combo{{1010, 20, 30}, {1003, 8, 12}, {2005, 12, 20}, {1000, 10, 15}, {999, 12, 20}, {1499, 600, 700}}
-	n := 6
+	combos := []combo{{1010, 20, 30}, {1003, 8, 12}, {2005, 12, 20}, {1000, 10, 15}, {999, 12, 20}, {1499, 600, 700},
+		// the load-time prune height lands exactly on a 1000-header file boundary
+		{1020, 20, 5}, {2012, 12, 5}, {1008, 8, 3}, {3030, 30, 40}}
+	n := len(combos)
 	if run.Tier == "thorough" {
 		n = 120
 	}
